@@ -36,10 +36,10 @@ TRUE = lambda: True
 
 
 class T:
-    __slots__ = ("name", "role", "lineage", "sem", "pred", "done", "thread", "started")
+    __slots__ = ("name", "role", "lineage", "sem", "pred", "done", "thread", "started", "call")
 
-    def __init__(self, name, role, lineage):
-        self.name, self.role, self.lineage = name, role, lineage
+    def __init__(self, name, role, lineage, call=0):
+        self.name, self.role, self.lineage, self.call = name, role, lineage, call
         self.sem = threading.Semaphore(0)
         self.pred = None
         self.done = False
@@ -64,6 +64,8 @@ class Sched:
         self.lineages = 0
         self.incarnations = collections.Counter()
         self.table = {}          # persistent-id table for private copies
+        self.call = 0            # index of the filter() call of a history that the caller is in
+        self.call_marks = [0]    # log position at which each call started
         self.escaped = []        # exceptions that escaped a scheduled background thread
         self.np_probe = None     # callable returning the current `_n_procs` (or None)
         self.none_code = None    # how a `None` popped from out_queue by the caller is reported (see c08.py)
@@ -89,8 +91,19 @@ class Sched:
             raise RuntimeError("C08 scheduler: a thread that does not hold the baton touched a controlled object")
         return t
 
+    def next_call(self):
+        """the caller starts another filter() call on the same object: threads of the earlier call(s) that are still
+        around stay scheduled (they are what the real code leaves behind); lineages are numbered per call"""
+        self.call += 1
+        self.main.call = self.call
+        self.lineages = 0
+        self.call_marks.append(len(self.log))
+
     def spawn(self, name, role, lineage, fn, on_exit=None):
-        t = T(name, role, lineage)
+        call = self.cur.call if self.cur is not None else self.call
+        if call:
+            name = "%d/%s" % (call, name)
+        t = T(name, role, lineage, call)
         t.pred = TRUE
 
         def wrapper():
@@ -234,7 +247,7 @@ class Sched:
 
     # ---- logging
     def act(self, a, **kw):
-        d = {"a": a}
+        d = {"a": a, "c": self.cur.call if self.cur is not None else self.call}
         d.update(kw)
         self.log.append(d)
 
@@ -344,11 +357,16 @@ class FakeQueue:
                 s.act("loadTake", x=self._obs_in(x))
             if timed:
                 s.yield_point()
-                if not block:
-                    if self.full():
-                        raise Full()
-                else:
-                    s.timed_wait(self.full, Full)
+                try:
+                    if not block:
+                        if self.full():
+                            raise Full()
+                    else:
+                        s.timed_wait(self.full, Full)
+                except Full:
+                    if me.role == "L":
+                        s.act("putTimeout")      # the model's environment action (enabled only when Cfg.timeouts)
+                    raise
             else:
                 s.yield_point(lambda: not self.full())
             self.q.append(x)
@@ -459,9 +477,10 @@ def make_fakes(sched, real_process_line, real_thread_line):
                 self.lineage = sched.lineages
                 sched.lineages += 1
             w = self.lineage
-            sched.incarnations[w] += 1
-            name = "W%d.%d" % (w, sched.incarnations[w])
-            self.pid = 100000 + 100 * w + sched.incarnations[w]
+            ck = (sched.cur.call, w)
+            sched.incarnations[ck] += 1
+            name = "W%d.%d" % (w, sched.incarnations[ck])
+            self.pid = 100000 + 100 * w + sched.incarnations[ck]
             child = _Child(sched.private_copy(self._line))
             self._alive = True
             self._started = True
@@ -496,7 +515,7 @@ def make_fakes(sched, real_process_line, real_thread_line):
                     else:
                         sched.act("wCallback", w=w, np=np)
 
-                sched.spawn("C%d.%d" % (w, sched.incarnations[w]), "C", w, cb_body)
+                sched.spawn("C%d.%d" % (w, sched.incarnations[ck]), "C", w, cb_body)
 
             sched.spawn(name, "W", w, body, on_exit)
 
@@ -546,6 +565,9 @@ def make_fakes(sched, real_process_line, real_thread_line):
 
             def body():
                 real_thread_line.run(self)             # REAL code (shared memory, like the real thread)
+                if self._exception is not None:
+                    # the loader died while fetching/pickling its next element (same baton hold as the failure)
+                    sched.act("loadTake", fail=type(self._exception).__name__)
                 self._alive = False
 
             def on_exit():
